@@ -19,10 +19,10 @@ from lib import clist, cstr, cbool
 N = {"quick": 110, "thorough": 1500}
 
 # guard components of Model/PolarsExec.v (cause_bit in Model/PolarsExecCases.v)
-CAUSES = [(256, "vocab"), (512, "reserved_name"), (1024, "cmp_null"), (2048, "logic_null"),
+CAUSES = [(256, "vocab"), (512, "columns_missing"), (1024, "cmp_null"), (2048, "logic_null"),
           (16384, "join_no_keys"), (65536, "sort_nulls"), (131072, "empty_project"), (262144, "sort_ties"), (524288, "group_key_repr")]
 # causes that describe a documented difference (known finding or accepted convention); the others only bound the theorem
-EXPLAINING = ["sort_ties", "cmp_null", "logic_null", "sort_nulls", "empty_project", "reserved_name"]
+EXPLAINING = ["sort_ties", "cmp_null", "logic_null", "sort_nulls", "empty_project"]
 # "sum/count over groups with no non-null values": accepted by the property text itself; ties under a limit / an ordered window:
 # which rows are kept is not determined by the pipeline (DESIGN 3.3), the two sort routines may break ties differently
 ACCEPTED = {"empty_project", "sort_ties"}
